@@ -44,6 +44,7 @@ pub fn menu() -> Vec<Item> {
         Item { name: "gvar_small", small: true, f: gvar_small },
         Item { name: "gpos_single", small: true, f: gpos_single },
         Item { name: "gpos_single_scripts", small: true, f: gpos_single_scripts },
+        Item { name: "multiple_subst_dense", small: false, f: multiple_subst_dense },
         Item { name: "gpos_promoted", small: false, f: gpos_promoted },
         Item { name: "gpos_split_pairpos1", small: false, f: gpos_split_pairpos1 },
         Item { name: "gpos_classpair_builder", small: false, f: gpos_classpair_builder },
@@ -206,6 +207,20 @@ fn gpos_single_scripts() -> Vec<u8> {
 // ---------------------------------------------------------------------------------------------
 // larger items
 // ---------------------------------------------------------------------------------------------
+
+/// Allocation-dense value: a MultipleSubst with 96 distinct tiny Sequence tables (one ObjectId every
+/// few dozen nanoseconds). Used by the free-running pass to hammer the counter, and by the gap,
+/// history and seed dimensions like every other value.
+fn multiple_subst_dense() -> Vec<u8> {
+    use write_fonts::tables::gsub::{Gsub, MultipleSubstFormat1, Sequence, SubstitutionLookup};
+    let n = 96u16;
+    let coverage: CoverageTable = (10..10 + n).map(g).collect();
+    let sequences = (0..n).map(|i| Sequence::new(vec![g(200 + i), g(400 + 2 * i)])).collect();
+    let sub = MultipleSubstFormat1::new(coverage, sequences);
+    let lookup = SubstitutionLookup::Multiple(Lookup::new(LookupFlag::empty(), vec![sub]));
+    let gsub = Gsub::new(Default::default(), Default::default(), LookupList::new(vec![lookup]));
+    dump_table(&gsub).unwrap()
+}
 
 fn big_pair_pos(first: u16, n_sets: u16, per_set: u16) -> PairPos {
     let coverage = (first..first + n_sets).map(g).collect();
